@@ -1,7 +1,9 @@
 """C14 - a waiting sender gets its own answer, matched by Hop-by-Hop id, and always wakes.
 
 Generator : k = 1..4 caller threads calling the real Bromelia.send_message(req)
-            (distinct Hop-by-Hop ids, some differing in one byte); an in-process
+            (distinct Hop-by-Hop ids, some differing in one byte; optionally spread
+            over two connections = two workers, where the same Hop-by-Hop id may be
+            outstanding on both); an in-process
             Worker whose real send_handler loop runs as a controlled thread; a
             scripted network thread that, for each request leaving the worker,
             runs the real handler_pending_answers(answer) in its own controlled
@@ -29,6 +31,10 @@ RULE = ("(callers, answer arrival permutation and delays, duplicates/unsolicited
 HBH = [0x01020304, 0x01020305, 0x01020404, 0xFFFFFFFF, 0x00000000, 0x80000000, 0x7FFFFFFF, 0x0A0B0C0D]
 
 
+LINE_FUNCS = ["is_pending_answer", "is_pending_answer", "get_pending_answer", "remove_pending_answer", "insert_pending_answer", "handler_pending_answers",
+              "send_message", "wait", "notify", "update_msg"]
+
+
 class ShimManager:
     def __init__(self, sched):
         self.s = sched
@@ -46,13 +52,27 @@ class ShimManager:
 @st.composite
 def cases(draw):
     k = draw(st.sampled_from([1, 2, 2, 3, 4]))
-    hbh = draw(st.lists(st.sampled_from(HBH), min_size=k, max_size=k, unique=True))
+    # callers may use two connections (one worker per application); Hop-by-Hop identifiers are unique per connection only
+    two = k >= 2 and draw(st.booleans())
+    apps = [draw(st.sampled_from(["s6a", "gx"])) if two else "s6a" for _ in range(k)]
+    raw = draw(st.lists(st.sampled_from(HBH[:4] if two else HBH), min_size=k, max_size=k, unique=not two))
+    hbh, used = [], set()
+    for a, h in zip(apps, raw):
+        while (a, h) in used:
+            h = HBH[(HBH.index(h) + 1) % len(HBH)]
+        used.add((a, h))
+        hbh.append(h)
     perm = list(draw(st.permutations(list(range(k)))))
     delays = [draw(st.sampled_from([0.0, 0.0, 0.001, 0.01, 0.2])) for _ in range(k)]
     extras = draw(st.lists(st.sampled_from(["dup", "unsolicited"]), max_size=2))
     sched = draw(conc.schedules(250))
     hold = draw(st.sampled_from([None, None, 0, k - 1]))
-    return {"k": k, "hbh": hbh, "perm": perm, "delays": delays, "extras": extras, "sched": sched, "hold": hold,
+    # directed delay: one thread pauses at its n-th source line inside one of the registry / rendezvous functions while the others go on
+    lhold = None
+    if draw(st.integers(0, 3)) == 0:
+        lhold = [draw(st.sampled_from(["answer", "answer", "caller"])) + "-" + str(draw(st.integers(0, k - 1))), draw(st.sampled_from(LINE_FUNCS)),
+                 draw(st.integers(1, 6)), draw(st.sampled_from([0.001, 0.02, 0.3]))]
+    return {"k": k, "hbh": hbh, "apps": apps, "lhold": lhold, "perm": perm, "delays": delays, "extras": extras, "sched": sched, "hold": hold,
             "lines": draw(st.booleans()) if sched else False, "stagger": draw(st.sampled_from([0.0, 0.0, 0.005]))}
 
 
@@ -75,7 +95,8 @@ def run_one(case):
     refdict.all_classes()
     errors = common.lib_errors()
     info = {}
-    sched = Scheduler(choices=None, line_preempt=case["lines"], trace_prefix=common.REPO.rstrip("/") + "/bromelia/", max_steps=300000)
+    sched = Scheduler(choices=None, line_preempt=case["lines"], trace_prefix=common.REPO.rstrip("/") + "/bromelia/", max_steps=300000,
+                      line_holds=bool(case.get("lhold")))
     net = Net(sched)
     results = {}
     vs = []
@@ -85,24 +106,32 @@ def run_one(case):
             import bromelia.bromelia as bb
             from bromelia.base import DiameterRequest, DiameterAnswer
             C = refdict.cls_obj
-            app, workers = inproc.make_app(["s6a"], manager=ShimManager(sched))
-            app_id = struct.pack(">I", 16777251)
-            worker = workers[app_id]
-            rec = Recorder(worker.app.config)
-            worker.app = rec
+            apps_of = case.get("apps") or ["s6a"] * case["k"]
+            names = sorted(set(apps_of), reverse=True)
+            app, workers = inproc.make_app(names, manager=ShimManager(sched))
+            APP_ID = {n: inproc.APPS[n][2] for n in names}
+            the_workers, recs = [], []
+            for n in names:
+                wk = workers[struct.pack(">I", APP_ID[n])]
+                rc_ = Recorder(wk.app.config)
+                wk.app = rc_
+                the_workers.append(wk)
+                recs.append(rc_)
             reqs, answers = [], []
             for i in range(case["k"]):
-                r = DiameterRequest(command_code=316, application_id=16777251,
+                aid = APP_ID[apps_of[i]]
+                r = DiameterRequest(command_code=316, application_id=aid,
                                     avps=[C("SessionIdAVP")(f"s;{i}".encode()), C("OriginHostAVP")("h"), C("OriginRealmAVP")("r")])
                 r.header.hop_by_hop = case["hbh"][i]
                 r.header.end_to_end = 1000 + i
                 reqs.append(r)
-                a = DiameterAnswer(command_code=316, application_id=16777251,
+                a = DiameterAnswer(command_code=316, application_id=aid,
                                    avps=[C("SessionIdAVP")(f"s;{i}".encode()), C("ResultCodeAVP")(2001 + i)])
                 a.header.hop_by_hop = case["hbh"][i]
                 a.header.end_to_end = 1000 + i
                 answers.append(a)
-            sched.spawn(worker.send_handler, "send_handler")
+            for n, wk in zip(names, the_workers):
+                sched.spawn(wk.send_handler, "send_handler" if n == "s6a" else f"send_handler-{n}")
 
             def caller(i):
                 def run():
@@ -120,7 +149,7 @@ def run_one(case):
 
             def network():
                 for j, idx in enumerate(case["perm"]):
-                    sched.point("net.wait", pred=lambda idx=idx: any(m is reqs[idx] for m in rec.sent), timeout=None)
+                    sched.point("net.wait", pred=lambda idx=idx: any(m is reqs[idx] for r_ in recs for m in r_.sent), timeout=None)
                     if case["delays"][j]:
                         bb.time.sleep(case["delays"][j])
                     dispatched.append(idx)
@@ -141,16 +170,19 @@ def run_one(case):
                 h = case["hold"]
                 sched.hold(f"caller-{h}", "event.set", 1,
                            lambda: any(t.name == f"answer-{h}" and t.state == "finished" for t in sched.threads), 5.0)
+            if case.get("lhold"):
+                t_, fn_, n_, d_ = case["lhold"]
+                sched.hold(t_, "line:" + fn_, n_, lambda: False, d_)
             cts = [sched.spawn(caller(i), f"caller-{i}") for i in range(case["k"])]
             sched.spawn(network, "network")
             r = sched.run_until(lambda: all(c.state == "finished" for c in cts) or sched.overrun, 20.0)
             sched.run_until(lambda: False, 0.5)
-            info.update(result=r, steps=sched.steps, switches=sched.switches, line_switches=sched.line_switches)
+            info.update(result=r, steps=sched.steps, switches=sched.switches, line_switches=sched.line_switches, holds_taken=sched.holds_taken)
             blocked = [(t.name, t.blocked_on) for t in sched.threads if t.name.startswith("caller") and t.state != "finished"]
             early = _answered_before_registration(case, sched)
             if blocked:
                 vs.append(V("a caller whose answer has arrived is always woken", f"caller-never-returns/k={case['k']}",
-                            f"{blocked} after 20 virtual s (run={r}); answers dispatched for {dispatched}; requests left worker: {len(rec.sent)}"))
+                            f"{blocked} after 20 virtual s (run={r}); answers dispatched for {dispatched}; requests left worker: {sum(len(r_.sent) for r_ in recs)}"))
             for i in range(case["k"]):
                 if i not in results:
                     continue
@@ -165,8 +197,9 @@ def run_one(case):
             got = [id(v[1]) for v in results.values() if v[0] == "ok" and v[1] is not None]
             if len(got) != len(set(got)):
                 vs.append(V("no answer is delivered twice", "answer-delivered-twice", ""))
-            if not blocked and worker.pending_answers:
-                vs.append(V("the pending-answer registry is empty afterwards", "registry-not-empty", str(list(worker.pending_answers))))
+            if not blocked and any(wk.pending_answers for wk in the_workers):
+                vs.append(V("the pending-answer registry is empty afterwards", "registry-not-empty",
+                            str([list(wk.pending_answers) for wk in the_workers])))
         finally:
             unreaped = sched.kill_all()
     if unreaped:
@@ -193,12 +226,19 @@ def _collect(shard, seed, n):
     def body(case):
         vs, info = run_one(case)
         f = {f"k={case['k']}"}
+        ap = case.get("apps") or []
+        if len(set(ap)) > 1:
+            f.add("two-connections")
+            if len(set(case["hbh"])) < len(case["hbh"]):
+                f.add("same-hop-by-hop-on-two-connections")
         if case["k"] >= 2 and case["perm"] != sorted(case["perm"]):
             f.add("non-identity-arrival")
         if any(d == 0.0 for d in case["delays"]):
             f.add("zero-delay-answer")
         if case.get("hold") is not None:
             f.add("answer-handled-between-enqueue-and-registration")
+        if case.get("lhold") and info.get("holds_taken"):
+            f.add("delayed-at-source-line-in-registry-code")
         if case["sched"] and any(case["sched"]):
             f.add("prefix-with-switch")
         if info.get("line_switches"):
@@ -218,7 +258,8 @@ def main(ctx):
     for path, rec in common.load_replays(PID):
         col.record(rec["case"], run_case(rec["case"]), nontrivial=True, classes=["replay"])
     ctx.required_classes = ["answer-handled-between-enqueue-and-registration", "non-identity-arrival", "zero-delay-answer", "prefix-with-switch", "preempted-at-source-line", "k=1", "k=4",
-                            "extra=dup", "extra=unsolicited", "ids-differ-in-one-byte"]
+                            "extra=dup", "extra=unsolicited", "ids-differ-in-one-byte", "two-connections", "same-hop-by-hop-on-two-connections",
+                            "delayed-at-source-line-in-registry-code"]
     ctx.assumptions = ["in-process Worker with shim primitives instead of multiprocessing proxies; the worker's real send_handler loop runs as a "
                        "controlled thread; 'always wakes' is bounded liveness: 20 virtual seconds under fair completion",
                        "schedules are sampled (random walk / PCT-like prefixes, optional line preemption)"]
